@@ -442,6 +442,7 @@ class Gen:
     """accumulates the Coq term of one loop body"""
     def __init__(self, ctx, helpers, pb_empty):
         self.ctx = ctx; self.helpers = helpers; self.pb_empty = pb_empty
+        self.crit_capture = []
         self.nval = 0; self.writes = []; self.reads = []; self.has_crit = False; self.pb_ticks = 0
         self.scope = []     # coq binders in scope inside the parallel loop (name, type)
 
@@ -473,6 +474,11 @@ class Gen:
         ctx = self.ctx; t = text.strip()
         if not t: return None
         if re.fullmatch(r"OM_VERIF_\w+\s*\(.*\)", t, re.S): return None      # hook marker (add-only instrumentation)
+        m = re.fullmatch(r"(%s)\s*\.\s*Run\s*\(\s*\[&\]\s*\(\s*\)\s*\{(.*)\}\s*\)" % ID, t, re.S)
+        if m:
+            # nested capture (e.g. inside omp critical): same ThreadException object, the statements are those of the lambda
+            if m.group(1) != getattr(self, "exc", None): raise Unknown("%s: nested Run on %s, which is not the region's ThreadException" % (ctx.where, m.group(1)))
+            return self.seq(stmts(m.group(2)), crit)
         m = re.fullmatch(r"\+\+\s*(%s)" % ID, t)
         if m:
             if m.group(1) == "pb" or m.group(1).startswith("pb"):
@@ -518,6 +524,11 @@ class Gen:
                     if crit: raise Unknown("%s: nested critical" % self.ctx.where)
                     if k + 1 >= len(sts): raise Unknown("%s: critical without statement" % self.ctx.where)
                     self.has_crit = True
+                    # an exception must not leave the critical construct: every statement of its block has to be a nested <exc>.Run(...)
+                    nxt = sts[k + 1]
+                    inner_sts = stmts(nxt[1]) if nxt[0] == "block" else [nxt]
+                    runre = r"%s\s*\.\s*Run\s*\(\s*\[&\]\s*\(\s*\)\s*\{.*\}\s*\)" % re.escape(getattr(self, "exc", None) or "?")
+                    self.crit_capture.append(all(x[0] == "simple" and re.fullmatch(runre, x[1].strip(), re.S) for x in inner_sts))
                     inner = self.stmt(sts[k + 1], True)
                     terms.append("[Crit %s]" % (inner if inner else "[]"))
                     k += 2; continue
@@ -778,6 +789,7 @@ def analyse_region(text, pos, rel, line, helpers, pb_empty, used_names):
                 inner_sts = stmts(m.group(2)); continue
         outside.append(s)
     g = Gen(ctx, helpers, pb_empty)
+    g.exc = exc
     g.scope = [(parvar, partyp)]
     if inner_sts is None:
         wrapped = False
@@ -800,7 +812,7 @@ def analyse_region(text, pos, rel, line, helpers, pb_empty, used_names):
         "true" if wrapped else "false", "true" if rethrow else "false")
     return dict(name=name, file=rel, line=line, function=fn[0], cls=cls, variant=d["form"], header=nows(hdr), parvar=parvar,
                 domain=d["dom"], enclosing=seq_desc, guards=[nows(x) for x in guards], params=[list(p) for p in params],
-                writes=g.writes, critical=g.has_crit, pb_ticks=g.pb_ticks, wrapped=wrapped, rethrow=rethrow, coq=coq,
+                writes=g.writes, critical=g.has_crit, critical_capture=all(g.crit_capture), pb_ticks=g.pb_ticks, wrapped=wrapped, rethrow=rethrow, coq=coq,
                 body_span=(pos, loop_end), containers={k: v["kind"] for k, v in ctx.containers.items()})
 
 # ------------------------------------------------------------------ ThreadException / ProgressBar / accessors
@@ -890,6 +902,7 @@ def gen_config(repo, tag, defines, files):
     L.append("Definition gen_region_count : nat := %d." % len(regions))
     L.append("Definition gen_dead_pragmas : nat := %d." % len(dead))
     L.append("Definition gen_critical_sections : nat := %d." % sum(1 for r in regions if r["critical"]))
+    L.append("Definition gen_critical_capture : bool := %s.   (* no exception can leave an omp critical construct *)" % ("true" if all(r["critical_capture"] for r in regions) else "false"))
     L.append("Definition gen_progressbar_empty : bool := %s." % ("true" if pb_empty else "false"))
     L.append("Definition gen_te_capture_locked : bool := %s." % ("true" if te["capture_locked"] else "false"))
     L.append("Definition gen_te_capture_stores : bool := %s." % ("true" if te["capture_stores"] else "false"))
